@@ -25,7 +25,7 @@ pub fn def16() -> PropDef {
     PropDef {
         info: PropInfo {
             id: "C16",
-            rule: "same instruction-stream generator as C15, half of the streams forced into the expressible/canonical class, the others with junk in unused fields (including register byte, offset and - in a third of them - a supported opcode byte in the second slot of a wide load) (assembler-expressible opcodes, unused fields zero, 32-bit immediates >= 0, any 64-bit value for lddw, byte-swap widths 16/32/64). The text is join(to_insn_vec().desc, newline) and, in a second stream, the captured stdout of disassemble(); long expressible programs of up to 2^17 (+4) slots (2^18 in the thorough tier) with wide loads at every kind of position go through both. Oracle: class 1 => assemble(text) == Ok(original bytes); other programs => if assemble() accepts the text the result equals the canonical form computed by the harness (same opcodes, same used-field values, unused fields cleared), an Err is fine. Non-trivial = class-1 program of >= 2 instructions, or a class-2 program the assembler accepted; distinct by hash.",
+            rule: "same instruction-stream generator as C15 (about one instruction in seven repeats the one before it), half of the streams forced into the expressible/canonical class, the others with junk in unused fields (including register byte, offset and - in a third of them - a supported opcode byte in the second slot of a wide load) (assembler-expressible opcodes, unused fields zero, 32-bit immediates >= 0, any 64-bit value for lddw, byte-swap widths 16/32/64). The text is join(to_insn_vec().desc, newline) and, in a second stream, the captured stdout of disassemble(); long expressible programs of up to 2^17 (+4) slots (2^18 in the thorough tier) with wide loads at every kind of position go through both. Oracle: class 1 => assemble(text) == Ok(original bytes); other programs => if assemble() accepts the text the result equals the canonical form computed by the harness (same opcodes, same used-field values, unused fields cleared), an Err is fine. Non-trivial = class-1 program of >= 2 instructions, or a class-2 program the assembler accepted; distinct by hash.",
             assumptions: &["canonical form = harness/vrun/src/isa.rs::uses_of table"],
         },
         run: run16,
@@ -48,8 +48,21 @@ fn sinsn() -> impl Strategy<Value = SInsn> {
         .prop_map(|(opc_sel, regs, off, imm, hi)| SInsn { opc_sel, regs, off, imm, hi })
 }
 
+/// About one instruction in seven is a copy of the one before it (identical lines, identical
+/// wide loads back to back).
+fn with_repeats(max: usize) -> impl Strategy<Value = Vec<SInsn>> {
+    (prop::collection::vec(sinsn(), 1..max), prop::collection::vec(0u8..7, max)).prop_map(|(mut s, rep)| {
+        for k in 1..s.len() {
+            if rep[k] == 0 {
+                s[k] = s[k - 1].clone();
+            }
+        }
+        s
+    })
+}
+
 pub fn stream() -> impl Strategy<Value = (Vec<SInsn>, bool)> {
-    (prop::collection::vec(sinsn(), 1..40), any::<bool>())
+    (with_repeats(40), any::<bool>())
 }
 
 /// Long programs (up to 2^max_log slots and a little more) whose wide loads sit on every kind of
@@ -594,7 +607,7 @@ fn run16(ctx: &Ctx) {
     });
     // short class-2 programs are accepted far more often than long ones: dedicated stream
     let cases = ctx.share(ctx.tier.pick(200_000, 6_000_000));
-    ctx.search("short", "bytes", cases, prop::collection::vec(sinsn(), 1..3), |s, want_case| {
+    ctx.search("short", "bytes", cases, with_repeats(3), |s, want_case| {
         let bytes = lower_with(s, false, true);
         let (v, class1, accepted) = check_roundtrip(&bytes);
         if !want_case {
